@@ -11,3 +11,4 @@ open XsVerif.Props.C16
 #print axioms union_exact
 #print axioms union_expressible_11
 #print axioms union_refused_10
+#print axioms cross_namespace_counterexample
